@@ -1654,7 +1654,12 @@ func c10FirstLevel(c *Ctx, w *prove.World, fle, fld *wcodec) {
 				if n, ok := c10FixedBuf(wire.StripConv(call.Call.Args[0])); (ok && n == nameLen) || decStore.buf[wire.StripConv(call.Call.Args[0])] {
 					foundTrim = true
 					cut, isK := strArg(1)
-					if isK && padByte >= 0 && cut == string([]byte{byte(padByte)}) {
+					if padByte < 0 {
+						// the encoder's pad byte was not determined (its own clause says why):
+						// there is nothing to compare the cutset with
+						r.OK("firstlevel", key, c.P.Rel(call.Pos()), "NOT DECIDED — the encoder's pad byte was not determined; TrimRight cutset is "+call.Call.Args[1].String())
+						r.Note("C10 firstlevel: %s NOT DECIDED — the encoder's pad byte was not determined", key)
+					} else if isK && cut == string([]byte{byte(padByte)}) {
 						r.OK("firstlevel", key, c.P.Rel(call.Pos()), fmt.Sprintf("TrimRight cutset is the pad byte %#x", padByte))
 					} else {
 						r.Fail("firstlevel", key, c.P.Rel(call.Pos()), fmt.Sprintf("TrimRight removes %s but the encoder pads with %#x", call.Call.Args[1].String(), padByte))
@@ -1702,10 +1707,43 @@ func c10FirstLevel(c *Ctx, w *prove.World, fle, fld *wcodec) {
 			}
 		}
 	}
-	if !foundTrim && decOpaque != "" {
-		nd(decOpaque, key, fld.pos, "no TrimRight of the 16 decoded bytes found in FirstLevelDecode itself")
-	} else if !foundTrim {
-		r.Fail("firstlevel", key, fld.pos, "the decoded 16 bytes are not right-trimmed: the encoder's space padding stays in the name")
+	if !foundTrim {
+		// no TrimRight: how do the decoded bytes become the name? (c10_trim.go)
+		forms := c10TrimForms(dx, fld.fn, c10BufferValues(fld.fn, decStore.st, decStore.buf), decStore.Val, decStore.st, decStore.it, nameLen)
+		var trim, whole, opaque *c10TrimForm
+		for i := range forms {
+			switch forms[i].kind {
+			case "index", "scan":
+				if trim == nil || forms[i].k != padByte {
+					trim = &forms[i]
+				}
+			case "whole":
+				whole = &forms[i]
+			default:
+				opaque = &forms[i]
+			}
+		}
+		switch {
+		case trim != nil && padByte < 0:
+			r.OK("firstlevel", key, c.P.Rel(trim.pos), "NOT DECIDED — the encoder's pad byte was not determined")
+			r.Note("C10 firstlevel: %s NOT DECIDED — the encoder's pad byte was not determined", key)
+		case trim != nil && trim.k == padByte && trim.kind == "index":
+			r.OK("firstlevel", key, c.P.Rel(trim.pos), fmt.Sprintf("the name ends after the last decoded byte that is not the pad byte %#x (index recorded in the decode loop)", padByte))
+		case trim != nil && trim.k == padByte:
+			r.OK("firstlevel", key, c.P.Rel(trim.pos), fmt.Sprintf("trailing bytes equal to the pad byte %#x are dropped by a backwards scan", padByte))
+		case trim != nil:
+			r.Fail("firstlevel", key, c.P.Rel(trim.pos), fmt.Sprintf("the decoder drops trailing bytes equal to %#x but the encoder pads with %#x", trim.k, padByte))
+		case opaque != nil:
+			r.OK("firstlevel", key, c.P.Rel(opaque.pos), "NOT DECIDED — "+opaque.why)
+			r.Note("C10 firstlevel: %s NOT DECIDED — %s", key, opaque.why)
+		case whole != nil:
+			r.Fail("firstlevel", key, c.P.Rel(whole.pos), "the decoded 16 bytes are not right-trimmed: all of them are converted to the name, so the encoder's space padding stays in the name")
+		case decOpaque != "":
+			nd(decOpaque, key, fld.pos, "no TrimRight of the 16 decoded bytes found in FirstLevelDecode itself")
+		default:
+			r.OK("firstlevel", key, fld.pos, "NOT DECIDED — the 16 decoded bytes were not seen to become the name in a form this rule reads (TrimRight, decoded[:end], string(decoded))")
+			r.Note("C10 firstlevel: %s NOT DECIDED — the decoded bytes do not reach the name in a form this rule reads", key)
+		}
 	}
 	key = "scope separator: encoder appends what the decoder splits on"
 	switch {
